@@ -23,6 +23,11 @@ TraceStep ==
        \/ ev.op = "set_keep" /\ OpSetKeep(ev.args[1], ev.args[2])
        \/ ev.op = "caller_mutates" /\ OpCallerMutates
        \/ ev.op = "caller_deletes" /\ OpCallerDeletes
+       \/ ev.op = "set_from" /\ OpSetFrom(ev.args[1], ev.args[2])
+       \/ ev.op = "set_own_pair" /\ OpSetOwnPair(ev.args[1])
+       \/ ev.op = "set_own_key" /\ OpSetOwnKey(ev.args[1], ev.args[2])
+       \/ ev.op = "remove_own_key" /\ OpRemoveOwnKey(ev.args[1])
+       \/ ev.op = "fill_set" /\ OpFillSet(ev.args[1], ev.args[2], ev.args[3], ev.args[4])
        \/ ev.op = "remove" /\ OpRemove(ev.args[1])
        \/ ev.op = "done" /\ OpDone
        \/ ev.op = "get" /\ OpGet(ev.args[1])
